@@ -2,9 +2,12 @@ SPECIFICATION Spec
 CONSTANTS
   Depth = 3
   Emit = TRUE
+  DepthA = 4
+  Aliased = FALSE
 INVARIANT HandlersRefine
 INVARIANT CreateRefines
 INVARIANT CreateStateAgrees
+INVARIANT AliasRefines
 INVARIANT CreateFlagsExclusive
 INVARIANT EmitBehaviour
 CHECK_DEADLOCK FALSE
